@@ -262,3 +262,31 @@ func TestVerif_C04_ConfigSample(t *testing.T) {
 	}
 	r.finish(t)
 }
+
+// TestVerif_C04_ManyLayers: "any number of quality layers" taken literally - far more layers than there
+// are coding passes (most layers are then empty packets).  Counts up to 1000 are reported under their
+// own failure kind; counts above are tagged many-layers>1000 (see known_findings.json).
+func TestVerif_C04_ManyLayers(t *testing.T) {
+	counts := []int{7, 40, 100, 400, 1000, 3000, 5000, 65535}
+	if verifJ2Thorough() {
+		counts = append(counts, 41, 164, 165, 2000, 2731, 4096, 20000)
+	}
+	r := verifJ2NewReport("TestVerif_C04_ManyLayers", fmt.Sprintf("reversible single tile, 20x17 12-bit unsigned and 9x5 8-bit x3 noise, levels {5,1}, NumLayers in %v", counts))
+	for _, n := range counts {
+		for i, c := range []verifJ2KCase{
+			{W: 20, H: 17, C: 1, P: 12, Levels: 5, CBW: 64, CBH: 64, Layers: n, Fill: "noise", Seed: 12345},
+			{W: 9, H: 5, C: 3, P: 8, Levels: 1, CBW: 64, CBH: 64, Layers: n, MCT: true, Fill: "noise", Seed: 77},
+		} {
+			kind, detail := verifJ2KRoundTrip(c, nil)
+			if kind != "" {
+				if n > 1000 {
+					kind += "/many-layers>1000"
+				} else {
+					kind += "/layers<=1000"
+				}
+			}
+			r.record(kind, fmt.Sprintf("img=%d %s", i, detail))
+		}
+	}
+	r.finish(t)
+}
